@@ -95,6 +95,8 @@ func H_l2_nowrite() {
 			// both iterators are exhausted (and were polled again after exhaustion); iterators
 			// created now must not be affected by them or by each other: a key handed out by
 			// one stays intact while the other advances
+			a()
+			a() // an exhausted iterator may be polled any number of times
 			a2 := st.NewIter(q, true, true)
 			b2 := st.NewIter(q2, true, true)
 			for i := 0; i < c.n+1; i++ {
